@@ -17,17 +17,25 @@ Theorem C11_chol_correct : forall (R : Type) (RR : Ring R) (CR : CRing R) (chol_
 Proof. intros R RR CR ch sq e. exact (chol_correct ch sq e). Qed.
 Print Assumptions C11_chol_correct.
 
-(* plu(A) = (P, L, U): three well-formed operators of A's shape, P a permutation matrix, L lower, U upper triangular, P L U = A *)
-Theorem C11_plu_correct : forall (R : Type) (RR : Ring R) (CR : CRing R) (lu_o : nat -> fm -> (nat -> nat) * fm * fm) (sqrt_o : R -> R) (e : op (R:=R)),
-  wf e = true -> is_sq e = true -> pok lu_o sqrt_o e -> plugood (plu lu_o sqrt_o e) e.
-Proof. intros R RR CR lu sq e. exact (plu_correct lu sq e). Qed.
+(* plu(A) = (P, L, U): three well-formed operators of A's shape, P a permutation matrix, L lower, U upper triangular, P L U = A.
+   [plu_sqrt] is the flag plu_diagonal_negative_nan: false = the repaired rule plu(Diagonal | ScalarMul) = (I, I, A), which needs no hypothesis
+   on the entries; true = the pinned rule (I, sqrt A, sqrt A), correct only where sqrt x * sqrt x = x *)
+Theorem C11_plu_correct : forall (R : Type) (RR : Ring R) (CR : CRing R) (lu_o : nat -> fm -> (nat -> nat) * fm * fm) (sqrt_o : R -> R) (plu_sqrt : bool) (e : op (R:=R)),
+  wf e = true -> is_sq e = true -> pok lu_o sqrt_o plu_sqrt e -> plugood (plu lu_o sqrt_o plu_sqrt e) e.
+Proof. intros R RR CR lu sq fl e. exact (plu_correct lu sq fl e). Qed.
 Print Assumptions C11_plu_correct.
+(* the pinned rule is wrong for a negative entry of a real operator, whatever real number the square root returns: witness Diagonal([-4]) *)
+Theorem C11_plu_diagonal_refuted : forall lu_o (sqrt_o : qi -> qi), real_valued (sqrt_o m4) ->
+  ~ plugood (plu lu_o sqrt_o true (Diag 1 (fun _ => m4))) (Diag 1 (fun _ => m4)).
+Proof. exact plu_diag_refuted. Qed.
+Print Assumptions C11_plu_diagonal_refuted.
 
 (* the factors keep the structure of the input: Kronecker of factors, BlockDiag with the same multiplicities, Diagonal, scalar * Identity,
    Triangular(lower) / Triangular(upper) / Permutation for everything that takes the dense path *)
-Theorem C11_structure_kept : forall (R : Type) (RR : Ring R) (CR : CRing R) (chol_o : nat -> fm -> fm) (lu_o : nat -> fm -> (nat -> nat) * fm * fm) (sqrt_o : R -> R) (e : op (R:=R)),
+Theorem C11_structure_kept : forall (R : Type) (RR : Ring R) (CR : CRing R) (chol_o : nat -> fm -> fm) (lu_o : nat -> fm -> (nat -> nat) * fm * fm) (sqrt_o : R -> R)
+  (plu_sqrt : bool) (e : op (R:=R)),
   dtype (chol chol_o sqrt_o e) = mirror (DtTri true) e /\
-  (let '(P, L, U) := plu lu_o sqrt_o e in dtype P = mirrorP e /\ dtype L = mirror (DtTri true) e /\ dtype U = mirror (DtTri false) e).
+  (let '(P, L, U) := plu lu_o sqrt_o plu_sqrt e in dtype P = mirrorP e /\ dtype L = mirrorL plu_sqrt e /\ dtype U = mirrorU plu_sqrt e).
 Proof. intros R RR CR. exact (@structure_kept R RR CR). Qed.
 Print Assumptions C11_structure_kept.
 
@@ -59,6 +67,6 @@ Proof. intros R RR. exact (@bd_permmat R RR). Qed.
 Print Assumptions C11_blockdiag_permutation.
 
 Example C11_hypotheses_satisfiable : forall chol_o lu_o,
-  wf ex11_tree = true /\ is_sq ex11_tree = true /\ cok chol_o ex11_sqrt ex11_tree /\ pok lu_o ex11_sqrt ex11_tree.
+  wf ex11_tree = true /\ is_sq ex11_tree = true /\ cok chol_o ex11_sqrt ex11_tree /\ pok lu_o ex11_sqrt true ex11_tree.
 Proof. exact ex11_ok. Qed.
 Print Assumptions C11_hypotheses_satisfiable.
